@@ -209,7 +209,9 @@ func checkC10Pay(r *run, c *H264PayCase) (CaseInfo, error) {
 			if dep.IsPartitionHead(p) != head || (&codecs.H264PartitionHeadChecker{}).IsPartitionHead(p) != head {
 				return ci, failf("%s: IsPartitionHead=%v, want %v", what, dep.IsPartitionHead(p), head)
 			}
-			got = append(got, units...)
+			for _, u := range units {
+				got = append(got, clone(u)) // the reference reassembler's units may point into p, which is recycled below
+			}
 			arg := clone(p)
 			if c.SharedRx {
 				if len(rx) < len(p) {
@@ -243,6 +245,13 @@ func checkC10Pay(r *run, c *H264PayCase) (CaseInfo, error) {
 		}
 		if refDep.Open() {
 			return ci, failf("call %d: the last FU-A train is not closed by an E fragment", ci2)
+		}
+		// the payloads of this call are sent and their buffers recycled by the caller: overwrite them (capacity
+		// included); what later calls return must not depend on them
+		for _, p := range payloads {
+			for k, full := 0, p[:cap(p)]; k < len(full); k++ {
+				full[k] ^= 0xFF
+			}
 		}
 	}
 	if pendSPS != nil || pendPPS != nil {
@@ -404,6 +413,8 @@ func genH264PayCase(t *rapid.T) *H264PayCase {
 	}
 	mtu := int(c.MTU)
 	ncalls := rapid.IntRange(1, 4).Draw(t, "ncalls")
+	var havePair bool
+	var lastSPS, lastPPS NALSpec
 	var pendingPPS *NALSpec // a PPS that must directly follow an SPS emitted at the end of the previous call
 	afterPair := false      // a pair is followed by a unit that is not a parameter set (or by the end of the stream)
 	for k := 0; k < ncalls; k++ {
@@ -433,7 +444,11 @@ func genH264PayCase(t *rapid.T) *H264PayCase {
 					sps.Len = rapid.IntRange(2, 30).Draw(t, "spslen")
 					pps.Len = rapid.IntRange(2, 12).Draw(t, "ppslen")
 				}
-				if mtu >= 10 && rapid.IntRange(0, 3).Draw(t, "pairatfit") == 0 {
+				if havePair && rapid.IntRange(0, 2).Draw(t, "samepair") == 0 {
+					// the very same parameter sets again (every key frame repeats them)
+					sps, pps = lastSPS, lastPPS
+					sps.StartCode, pps.StartCode = rapid.SampledFrom([]int{3, 4}).Draw(t, "sc2"), 3
+				} else if mtu >= 10 && rapid.IntRange(0, 3).Draw(t, "pairatfit") == 0 {
 					// the aggregate (1 + 2+len(SPS) + 2+len(PPS)) exactly at, one below or one above the MTU
 					total := mtu - 5 + rapid.SampledFrom([]int{0, 0, -1, 1}).Draw(t, "pairfitdelta")
 					pps.Len = mini(maxi(2, total/3), 200)
@@ -441,6 +456,7 @@ func genH264PayCase(t *rapid.T) *H264PayCase {
 						sps.Len = total - pps.Len
 					}
 				}
+				havePair, lastSPS, lastPPS = true, sps, pps
 				call.Units = append(call.Units, sps)
 				if len(call.Units) >= nu && k+1 < ncalls && genBool(t, "splitpair") {
 					pendingPPS = &pps
@@ -535,7 +551,7 @@ func genH264DecCase(t *rapid.T) *H264DecCase {
 	return c
 }
 
-const ruleC10 = "payloader: 1-4 Payload calls on one H264Payloader, each an Annex-B buffer (3-/4-byte start codes, optional leading zero byte) or one bare unit; NAL types 1-23 weighted to 1,5,6,7,8,9,12, NRI 0-3, sizes 2 bytes to several MTUs biased to MTU+-2 and 1+k*(MTU-2)+-2 (one case in 60 holds a unit of 65534-131073 bytes, parameter sets included), bodies free of start-code emulation with a non-zero last byte; SPS/PPS only as adjacent pairs (possibly split across calls); MTU 3-1500 biased to 3-10; STAP-A on/off; AVC on/off. Oracle: independent RFC 6184 parser/reassembler on the output (single | STAP-A | FU-A shapes, S/E placement, >=2 fragments, R=0, no empty fragment, <= MTU, a pair whose aggregate fits the MTU as exactly one STAP-A (sizes biased to aggregate = MTU-1, MTU, MTU+1) and individually otherwise, IsPartitionHead on first payloads only, byte-exact units in order minus AUD/filler) and H264Packet output = reference depacketizer output per payload (payloads delivered as private copies or, half of the cases, through one receive buffer that is wiped before each delivery), the payload left unmodified, every output kept and compared again after the whole stream was decoded. decoder: streams from the independent encoder (single, STAP-A of 1-5 units, FU-A with arbitrary fragment sizes incl. 1-byte and empty ones, the start fragment included). Non-trivial = stream with an FU-A train or a STAP-A; distinct = FNV-64 of the JSON case"
+const ruleC10 = "payloader: 1-4 Payload calls on one H264Payloader, each an Annex-B buffer (3-/4-byte start codes, optional leading zero byte) or one bare unit; NAL types 1-23 weighted to 1,5,6,7,8,9,12, NRI 0-3, sizes 2 bytes to several MTUs biased to MTU+-2 and 1+k*(MTU-2)+-2 (one case in 60 holds a unit of 65534-131073 bytes, parameter sets included), bodies free of start-code emulation with a non-zero last byte; SPS/PPS only as adjacent pairs (possibly split across calls, a third of the later ones byte-identical to the previous pair); the payloads of a call are overwritten before the next call; MTU 3-1500 biased to 3-10; STAP-A on/off; AVC on/off. Oracle: independent RFC 6184 parser/reassembler on the output (single | STAP-A | FU-A shapes, S/E placement, >=2 fragments, R=0, no empty fragment, <= MTU, a pair whose aggregate fits the MTU as exactly one STAP-A (sizes biased to aggregate = MTU-1, MTU, MTU+1) and individually otherwise, IsPartitionHead on first payloads only, byte-exact units in order minus AUD/filler) and H264Packet output = reference depacketizer output per payload (payloads delivered as private copies or, half of the cases, through one receive buffer that is wiped before each delivery), the payload left unmodified, every output kept and compared again after the whole stream was decoded. decoder: streams from the independent encoder (single, STAP-A of 1-5 units, FU-A with arbitrary fragment sizes incl. 1-byte and empty ones, the start fragment included). Non-trivial = stream with an FU-A train or a STAP-A; distinct = FNV-64 of the JSON case"
 
 func TestC10(t *testing.T) {
 	r := begin(t, "C10", "exploration", ruleC10)
